@@ -60,7 +60,9 @@ def _strategy(tier, var):
         c = {"cls": cls, "dim": dim, "dtype": dtype, "grid": grid,
              "time": draw(st.one_of(st.sampled_from([0.0, -0.0, 1.5, 1e-310, 1.7976931348623157e308]),
                                     st.floats(allow_nan=False, allow_infinity=False, width=64))),
-             "origin": draw(st.lists(gen.floats(-5.0, 5.0, 32), min_size=dim, max_size=dim)),
+             # node-centred grids / domains starting at the coordinate origin have origin components exactly 0
+             "origin": draw(st.lists(st.one_of(gen.floats(-5.0, 5.0, 32), gen.floats(-5.0, 5.0, 32), st.sampled_from([0.0, -0.0, 1.0])),
+                                     min_size=dim, max_size=dim)),
              "dx": draw(gen.floats(0.01, 2.0, 32)), "eul": [], "lag": []}
         if cls in ("IO", "EulerianFieldIO"):
             ne = draw(st.integers(0 if cls == "IO" else 1, 4))
@@ -96,6 +98,8 @@ def _strategy(tier, var):
         c["overwrite_pick"] = draw(st.integers(0, 50))
         c["reject"] = draw(st.sampled_from(["delete_dataset", "origin", "dx", "grid_size"]))
         c["reject_pick"] = draw(st.integers(0, 50))
+        # which side carries the deviating parameter: the reader's registration or the file
+        c["reject_flip"] = draw(st.booleans())
         c["perturb"] = draw(gen.floats(1e-3, 0.5, 32))
         return c
 
@@ -424,13 +428,25 @@ def _rejection(case, ctx, fname, tmp, gnames):
         c2["grid"] = g
         n = int(np.prod(g))
         c2["eul"] = [{**e, "bits": (e["bits"] * 8)[: n * (dim if e["vector"] else 1)]} for e in case["eul"]]
-    io3, _ = _build(c2, fresh=True)
+    if case.get("reject_flip", False):
+        # the FILE is written for the deviating grid, the reader registers the original one
+        fname = os.path.join(tmp, "case_0004.h5")
+        io_w, _ = _build(c2, fresh=False)
+        with ctx.repo_call("save (deviating grid)"):
+            io_w.save(h5_file_name=fname, time=0.5)
+        io3, _ = _build(case, fresh=True)
+        reader, filec = case, c2
+    else:
+        io3, _ = _build(c2, fresh=True)
+        reader, filec = c2, case
     try:
         io3.load(h5_file_name=fname)
     except Exception:  # noqa: BLE001
-        ctx.note(labels=[f"rejected_{mode}_mismatch"])
+        ctx.note(labels=[f"rejected_{mode}_mismatch", "deviation_in_file" if case.get("reject_flip") else "deviation_in_reader"])
         return
-    raise Violation(f"load() returned normally although the registered Eulerian {mode} differs from the file by {p:.3g} relative")
+    raise Violation(f"load() returned normally although the registered Eulerian {mode} differs from the file by {p:.3g} relative "
+                    f"(reader: origin {reader['origin']}, dx {reader['dx']}, grid {reader['grid']}; file: origin {filec['origin']}, "
+                    f"dx {filec['dx']}, grid {filec['grid']})")
 
 
 PARTS = [
